@@ -482,6 +482,8 @@ func genStatFile(t *rapid.T, scale float64, constant bool, baseOff int, many, co
 		withSize = true
 	}
 	withKind := vcase.OneIn(t, 3, "withkind")
+	// a part whose key merely starts like a projectable key (/size): it is not that key
+	withLook := vcase.OneIn(t, 5, "lookalikepart")
 	proc := rapid.SampledFrom(stProcs).Draw(t, "proc")
 	units := []string{"ns/op"}
 	for _, u := range stUnits[1:] {
@@ -524,6 +526,9 @@ func genStatFile(t *rapid.T, scale float64, constant bool, baseOff int, many, co
 					}
 					name += "/size=" + sz
 					mult *= float64(len(sz))
+				}
+				if withLook {
+					name += rapid.SampledFrom([]string{"/sizeclass=8", "/sizeclass=9", "/sizes", "/kinds=x"}).Draw(t, "look")
 				}
 				if withKind {
 					name += "/kind=" + rapid.SampledFrom(stKinds).Draw(t, "kind")
